@@ -496,6 +496,14 @@ func ConsistencyC04(prefix string, p *workflow.Plan, res *vprop.Result) bool {
 				res.Fail(prefix+"/completed-plan-check", "plan Completed but its %s checks Failed: %s", GroupNames[gi], Describe(p))
 				return false
 			}
+			// "... and no failed pre, continuous, post or deferred check": the blocks' own check groups included (a
+			// failed block-level check fails its block, so a Completed plan cannot contain one)
+			for bi, b := range p.Blocks {
+				if checksStatus(BlockGroup(b, gi)) == workflow.Failed {
+					res.Fail(prefix+"/completed-plan-block-check", "plan Completed but the %s checks of block b%d Failed: %s", GroupNames[gi], bi, Describe(p))
+					return false
+				}
+			}
 		}
 	}
 	for bi, b := range p.Blocks {
